@@ -273,6 +273,14 @@ func genC07(cw *caseWriter, seed uint64, tier string) {
 			emitStream(cw, "C07", pr[0], pr[1], proc, chunk(data, sz), nil, data, true)
 		}
 	}
+	// long streams: what shows only on the 65th, 257th or 1025th line, or after many rejected lines
+	for _, nl := range []int{70, 300, 1100} {
+		data := longStream(r, nl)
+		for _, pr := range pairs {
+			emitStream(cw, "C07", pr[0], pr[1], "tolerant", chunk(data, []int{4096, 1, 100}), nil, data, true)
+		}
+		emitStream(cw, "C07", pairs[0][0], pairs[0][1], "default", chunk(data, []int{1 << 20}), nil, data, true)
+	}
 	// line lengths around the 64 KiB initial buffer and 1 MiB (10 MiB: thorough)
 	lens := []int{65534, 65535, 65536, 65537, 131072, 1 << 20}
 	if tier == "thorough" {
@@ -284,6 +292,26 @@ func genC07(cw *caseWriter, seed uint64, tier string) {
 		data := []byte(`{"a":1}` + "\n" + line + "\n" + `{"a":2}` + "\n")
 		emitStream(cw, "C07", nil, nil, "tolerant", chunk(data, []int{1 << 16}), nil, data[:20], true)
 	}
+}
+
+// longStream: n lines drawn from the line alphabet (one in eight malformed), for what shows only on a later line.
+func longStream(r *rng, n int) []byte {
+	var sb bytes.Buffer
+	for i := 0; i < n; i++ {
+		switch {
+		case r.chance(1, 8):
+			sb.WriteString(pick(r, oddLines))
+		case r.chance(1, 3):
+			sb.WriteString(pick(r, streamLines))
+		default:
+			fmt.Fprintf(&sb, `{"a":%d,"n":%d}`, i%7, i)
+		}
+		if r.chance(1, 9) {
+			sb.WriteString("\r")
+		}
+		sb.WriteString("\n")
+	}
+	return sb.Bytes()
 }
 
 func genC08(cw *caseWriter, seed uint64, tier string) {
@@ -344,6 +372,30 @@ func genC08(cw *caseWriter, seed uint64, tier string) {
 				w3 := append([]string{}, w...)
 				w3[j] = "full"
 				emitStream(cw, "C08", ti, to, proc, chunk(data, []int{7}), w3, data, true)
+			}
+		}
+	}
+	// faults late in a long stream: the 100th write fails (plain, short, after writing everything); the reader
+	// fails after 150 lines, on a line boundary and inside a line
+	{
+		var sb bytes.Buffer
+		for i := 0; i < 200; i++ {
+			fmt.Fprintf(&sb, "{\"a\":%d}\n", i)
+		}
+		data := sb.Bytes()
+		for _, proc := range procs {
+			for _, ev := range []string{"fail", "short:3", "full"} {
+				w := make([]string, 100)
+				for i := range w {
+					w[i] = "ok"
+				}
+				w[99] = ev
+				emitStream(cw, "C08", ti, to, proc, chunk(data, []int{4096}), w, data, true)
+			}
+			cut := bytes.Index(data, []byte("{\"a\":150}"))
+			for _, k := range []int{cut, cut + 3} {
+				emitStream(cw, "C08", ti, to, proc, []readEv{{kind: "d", data: data[:k]}, {kind: "e"}}, nil, data, true)
+				emitStream(cw, "C08", ti, to, proc, append(chunk(data[:k], []int{512}), readEv{kind: "e"}), nil, data, true)
 			}
 		}
 	}
